@@ -9,9 +9,10 @@ from common import log
 LOADERS = ["slice", "skiplist", "map", "disk"]
 
 
-def reader_cfgs(rng, n=4, loaders=None):
+def reader_cfgs(rng, n=5, loaders=None):
+    """one reader per index loader: the DEFAULT one (no loader option at all - the first reader, the one the engine abandons now and then) and the four named ones"""
     out = []
-    for ld in (loaders or LOADERS)[:n]:
+    for ld in (loaders or ([""] + LOADERS))[:n]:
         out.append({"loader": ld, "rbuf": rng.choice([16, 64, 4096, 0]), "hash": rng.choice(["load", "read", "load"])})
     return out
 
